@@ -9,6 +9,9 @@ from vlib.core import ob
 
 READERS = ("deserialize", "deserialize_items", "deserialize_array", "deserialize_compat", "newList", "newSet", "newHll", "internal_deserialize_or_wrap",
            "deserialize_v1", "deserialize_v2", "deserialize_v3", "deserialize_v4", "wrap", "writable_wrap")
+# helpers of the readers whose integer parameters are counts taken from the image by their callers
+# (quantiles_sketch::deserialize_array is not listed: its callers pass counts derived from the 16-bit k only)
+HELPER_PARAMS = {"deserialize_items": ("num",)}
 WIDTH = {"unsigned char": 8, "char": 8, "signed char": 8, "bool": 1, "unsigned short": 16, "short": 16, "unsigned int": 32, "int": 32, "unsigned long": 64, "long": 64,
          "unsigned long long": 64, "long long": 64, "float": 32, "double": 64}
 
@@ -19,7 +22,7 @@ def _w(t):
 
 def var_key(e):
     e = strip_all(e)
-    if e.get("k") == "Ref" and e.get("dk") in ("local",):
+    if e.get("k") == "Ref" and e.get("dk") in ("local", "param"):
         return ("L", e["d"], e["n"])
     if e.get("k") == "Member" and strip_all(e.get("b") or {}).get("k") == "Ref" and strip_all(e["b"]).get("dk") == "local":
         return ("M", "%s.%s" % (strip_all(e["b"])["d"], e["f"]), strip_all(e["b"])["n"] + "." + e["f"])
@@ -37,7 +40,7 @@ def obligations(facts):
     out = []
     n_sinks = 0
     for pat, fn in sorted(fns.items()):
-        if fn["name"] not in READERS or fn.get("body") is None or not fn["params"]:
+        if (fn["name"] not in READERS and fn["name"] not in HELPER_PARAMS) or fn.get("body") is None or not fn["params"]:
             continue
         allp = " ".join(p["t"] for p in fn["params"])
         kind = "stream" if "basic_istream" in allp else ("bytes" if fn["params"][0]["t"].startswith(("const void", "void", "const unsigned char", "const char")) else None)
@@ -157,6 +160,9 @@ def obligations(facts):
             if k == "Construct" and (n.get("crec") or "") == "std::vector" and n.get("args") and _w(strip_all(n["args"][0]).get("t")) >= 8 and len(n.get("ptypes") or []) >= 1 and _w((n.get("ptypes") or [""])[0]) >= 32:
                 events.append((pos(n), "sink", "vector(n)", n["args"][0], n))
         walk(fn["body"], visit)
+        for p_ in fn["params"]:
+            if p_["n"] in HELPER_PARAMS.get(fn["name"], ()) and _w(p_["t"]) >= 32:
+                events.append(((0, 0), "taint", ("L", p_["d"], p_["n"]), (_w(p_["t"]), "count parameter handed over by the reader")))
         events.sort(key=lambda e: e[0])
         idx = 0
         for ev in events:
